@@ -132,6 +132,19 @@ func (x *fnExec) loopHeader(fr *frame, li *loopInfo, cur *State, edges []inEdge)
 			o.skolems = sk
 		}
 	}
+	if spec != nil && len(spec.AtEntry) > 0 {
+		sf := x.shadowFrame(fr, li, nil, cur)
+		for _, cl := range spec.AtEntry {
+			if cl.Info == nil {
+				continue
+			}
+			env := &specEnv{x: x, vars: copyVars(fr.vars), cur: cur, old: fr.entry, info: cl.Info, fr: sf, loop: li}
+			x.bindRangeIdx(env.vars, cl, li, sf)
+			goal, hyp, sk := env.clauseGoal(cl)
+			o := x.obligation(cur, fmt.Sprintf("%s:loop %d:atentry#%s", funcKey(x.top), li.ordinal, cl.Label), "assert", "loop entry", clauseTags(fr.C, cl), goal, hyp, cl.Src)
+			o.skolems = sk
+		}
+	}
 	// 2. havoc what the loop modifies
 	x.havocLoop(fr, li, cur)
 	phiVals := map[*ssa.Phi]Val{}
@@ -231,6 +244,8 @@ func (x *fnExec) havocLoop(fr *frame, li *loopInfo, st *State) {
 	}
 	var stores []*ssa.Store
 	callKeys := map[string]bool{}
+	extWrites := map[string][]*Term{}
+	extSorts := map[string]*Sort{}
 	for b := range li.body {
 		for _, in := range b.Instrs {
 			switch t := in.(type) {
@@ -245,6 +260,25 @@ func (x *fnExec) havocLoop(fr *frame, li *loopInfo, st *State) {
 			case ssa.CallInstruction:
 				if _, isGo := in.(*ssa.Go); isGo {
 					continue
+				}
+				if x.C != nil && x.C.Interference && !fr.inline {
+					if sc := t.Common().StaticCallee(); sc != nil && (sc.Name() == "Lock" || sc.Name() == "RLock") &&
+						(strings.HasPrefix(sc.String(), "(*sync.Mutex).") || strings.HasPrefix(sc.String(), "(*sync.RWMutex).")) {
+						// a lock (re-)acquired inside the loop: other goroutines may have changed anything
+						eff.top = true
+					}
+				}
+				if dst, elem, ok := byteWriterDest(t); ok {
+					// binary.PutUintNN / copy into a slice whose backing array does not change in the loop:
+					// only that row of the element array is written
+					if base, good := x.invariantSliceBase(fr, li, dst); good {
+						for _, l := range leaves(elem) {
+							k := "E:" + typeName(elem) + l.path
+							extWrites[k] = append(extWrites[k], base)
+							extSorts[k] = l.sort
+						}
+						continue
+					}
 				}
 				ce := &effectSet{keys: map[string]bool{}}
 				x.callEffects(t, ce)
@@ -341,9 +375,58 @@ func (x *fnExec) havocLoop(fr *frame, li *loopInfo, st *State) {
 		}
 		st.setArr(k, a)
 	}
+	for k, bases := range extWrites {
+		if exact[k] {
+			continue
+		}
+		a := st.arr(k, extSorts[k])
+		for _, b := range bases {
+			a = Store(a, b, Fresh("loophv", a.S.Elem))
+		}
+		st.setArr(k, a)
+	}
 	if len(exact) > 0 || len(prefixes) > 0 {
 		x.havocKeys(st, exact, prefixes)
 	}
+}
+
+// byteWriterDest recognises calls that only write the elements of one destination slice.
+func byteWriterDest(ci ssa.CallInstruction) (ssa.Value, types.Type, bool) {
+	cc := ci.Common()
+	if b, ok := cc.Value.(*ssa.Builtin); ok && b.Name() == "copy" {
+		if sl, ok := cc.Args[0].Type().Underlying().(*types.Slice); ok {
+			return cc.Args[0], sl.Elem(), true
+		}
+		return nil, nil, false
+	}
+	if f := cc.StaticCallee(); f != nil && f.Pkg != nil && f.Pkg.Pkg.Path() == "encoding/binary" && strings.HasPrefix(f.Name(), "PutUint") && len(cc.Args) >= 2 {
+		d := cc.Args[len(cc.Args)-2]
+		if sl, ok := d.Type().Underlying().(*types.Slice); ok {
+			return d, sl.Elem(), true
+		}
+	}
+	return nil, nil, false
+}
+
+// invariantSliceBase returns the backing-array identity of a slice value if it cannot change during the loop.
+func (x *fnExec) invariantSliceBase(fr *frame, li *loopInfo, v ssa.Value) (*Term, bool) {
+	for {
+		if s, ok := v.(*ssa.Slice); ok {
+			if _, isSl := s.X.Type().Underlying().(*types.Slice); isSl {
+				v = s.X
+				continue
+			}
+		}
+		break
+	}
+	if in, ok := v.(ssa.Instruction); ok && li.body[in.Block()] {
+		return nil, false
+	}
+	r, ok := fr.env[v]
+	if !ok || r.K != VSlice {
+		return nil, false
+	}
+	return r.base(), true
 }
 
 func rootIsLocalAllocOutside(v ssa.Value, li *loopInfo) bool {
